@@ -118,7 +118,16 @@ def _nominal_and_modifiers_from_spec(modifier_set, config, spec, batch_size):
     helper = {}
     _keys_seen = set()
     for c in spec['channels']:
+        if c['name'] in helper:
+            raise exceptions.InvalidModel(
+                f"Multiple channels are named {c['name']}. Channel names must be unique."
+            )
+        helper[c['name']] = {}
         for s in c['samples']:
+            if s['name'] in helper[c['name']]:
+                raise exceptions.InvalidModel(
+                    f"Multiple samples are named {s['name']} in channel {c['name']}. Sample names must be unique within a channel."
+                )
             moddict = {}
             for x in s['modifiers']:
                 if x['type'] not in modifier_set:
@@ -126,6 +135,10 @@ def _nominal_and_modifiers_from_spec(modifier_set, config, spec, batch_size):
                         f'{x["type"]} not among {list(modifier_set)}'
                     )
                 key = f"{x['type']}/{x['name']}"
+                if key in moddict:
+                    raise exceptions.InvalidModel(
+                        f"The modifier {key} is listed more than once on {s['name']} sample in {c['name']} channel."
+                    )
                 # check if the modifier to be built is allowed to be shared
                 if not modifiers_builders[x['type']].is_shared and (
                     key in _keys_seen or key in moddict
@@ -135,7 +148,7 @@ def _nominal_and_modifiers_from_spec(modifier_set, config, spec, batch_size):
                     )
 
                 moddict[key] = x
-            helper.setdefault(c['name'], {})[s['name']] = (s, moddict)
+            helper[c['name']][s['name']] = (s, moddict)
             # add in all keys seen
             _keys_seen.update(moddict)
 
